@@ -101,6 +101,8 @@ def generate(ctx, pid, tier, seed, i, skip):
     if pid == 'C18':
         if i % 8 == 5:      # every eighth case: the split-message scenario (chosen by the case number, so that the other cases stay as they were)
             return pgen.gen_c18_split(rng, tier, skip, ctx.msgb)
+        if i % 16 == 11:    # and every sixteenth: readers that receive channel change indications between their frames
+            return pgen.gen_c18_indication(rng, tier, skip)
         return pgen.gen_c18(rng, tier, skip)
     return pgen.gen_c19(rng, tier, skip, ctx.msgb)
 
